@@ -24,7 +24,7 @@ func newOr(astNode schema.ASTNode) *Or {
 	}
 
 	or := Or{
-		AnyOf:       newAnyOf(rule.Items, astNode.Value),
+		AnyOf:       newAnyOf(rule.Items, astNode.Value, internal.IsString(astNode)),
 		Example:     ex,
 		Nullable:    newNullable(astNode),
 		Description: newDescription(astNode),
@@ -33,7 +33,7 @@ func newOr(astNode schema.ASTNode) *Or {
 	return &or
 }
 
-func newAnyOf(rr []schema.RuleASTNode, example string) []Node {
+func newAnyOf(rr []schema.RuleASTNode, example string, exampleIsString bool) []Node {
 	nn := make([]Node, 0, len(rr))
 
 	for _, r := range rr {
@@ -41,6 +41,11 @@ func newAnyOf(rr []schema.RuleASTNode, example string) []Node {
 		if mock.TokenType != schema.TokenTypeShortcut && mock.Rules.Has("const") {
 			// The constant of a rule-set is the example next to which the "or" rule is written.
 			mock.Value = example
+			if exampleIsString && !internal.IsString(mock) {
+				// A rule-set of a non-string type is written out as it is: the
+				// string example has to be a JSON string there as well.
+				mock.Value = string(internal.ToJSONString(example))
+			}
 		}
 		node := newNode(mock)
 
